@@ -13,7 +13,7 @@ from .mirparse import parse_mir, split_top, match_paren
 IMPL_RE = re.compile(r'^(.*?)<impl at ([^:>]+):(\d+):(\d+): (\d+):(\d+)>::(.*)$')
 
 CRATE_MODS = {'digest', 'distinfo', 'pkgdb', 'plist', 'summary', 'depend', 'dewey', 'metadata', 'pattern',
-              'pkgname', 'pkgpath', 'scanindex', 'verif_harness', 'glob'}
+              'pkgname', 'pkgpath', 'scanindex', 'verif_harness'}
 
 
 def skip_angle(s, i):
@@ -374,9 +374,11 @@ class Program:
             if not m:
                 continue
             mod, fl, l, c, l2, c2, meth = m.groups()
-            if '::' in meth:     # closure / promoted inside a method
-                continue
             tr, ty, derive, targs = self._impl_header(fl, int(l), int(c), int(l2), int(c2))
+            if '::' in meth:     # closure / promoted inside a method
+                if '::promoted[' in meth or f.kind == 'const':
+                    self.promoted[strip_generics(f'{mod}{ty}::{meth}')] = f
+                continue
             if derive:
                 tr = self._derive_trait(tr, meth)
             f.idx = (ty, tr, meth, targs)
@@ -452,7 +454,8 @@ class Program:
             segs = split_path(st)
             if len(segs) >= 2 and segs[0] in CRATE_MODS:
                 # closure inside a method: mod::Type::method::{closure#0}
-                cands = self.index.get((ci.self_last, None, ci.method))
+                cands = [f for f in self.index.get((ci.self_last, None, ci.method), [])
+                         if f.name.startswith(segs[0] + '::')]
                 if cands:
                     return cands[0]
                 # enum-variant constructor fns / tuple struct ctors are handled by the engine
